@@ -205,7 +205,7 @@ func errorLeaf(variant string) error {
 	case "zero", "inner-zero", "empty":
 		return nil
 	case "min":
-		return MyErr("named string error")
+		return fmt.Errorf("plain %d", 1)
 	case "max":
 		return fmt.Errorf("wrapped: %w", errors.New("inner"))
 	case "odd":
@@ -219,9 +219,9 @@ func stringerLeaf(variant string) Stringer {
 	case "zero", "inner-zero", "empty":
 		return nil
 	case "min":
-		return MyStr("named string stringer")
+		return &MyInner{X: -1, Y: ""}
 	case "max":
-		return time.Second
+		return MyInner{X: 127, Y: "日本"}
 	case "odd":
 		return &MyInner{X: 1, Y: "p"}
 	}
